@@ -44,6 +44,19 @@ CFG_HALF = {
 }
 
 
+CFG4 = {
+    "data": {"dat_order": ["B", "C", "D", "E"]},
+    "decay": {"A": [["R1", "R2"], ["R1", "R3"]], "R1": ["B", "C"], "R2": ["D", "E"], "R3": ["D", "E"]},
+    "particle": {
+        "$top": {"A": {"J": 0, "P": -1, "mass": 5.0}},
+        "$finals": {"B": {"J": 0, "P": -1, "mass": 0.5}, "C": {"J": 0, "P": -1, "mass": 0.5}, "D": {"J": 0, "P": -1, "mass": 0.14}, "E": {"J": 0, "P": -1, "mass": 0.14}},
+        "R1": {"J": 1, "P": -1, "mass": 1.9, "width": 0.1},
+        "R2": {"J": 1, "P": -1, "mass": 0.77, "width": 0.15},
+        "R3": {"J": 2, "P": 1, "mass": 1.0, "width": 0.3},
+    },
+}
+
+
 def build_model(cfg=None, **amp_kwargs):
     import copy
 
@@ -91,12 +104,46 @@ def phsp_data(config, n, seed=1):
     return data
 
 
-def symbolize_couplings(amp, prefix="g_"):
-    """every trainable parameter gets a symbolic value; returns {name: SymReal}"""
+def symbolize_couplings(amp, prefix="g_", cartesian=False):
+    """every trainable parameter gets a symbolic value (phases of polar couplings are symbolic
+    angles so that their sines and cosines are rational); returns {name: SymReal}.
+    cartesian=True first switches all complex couplings to x + i y (then the amplitude is polynomial)."""
     out = {}
     vm = amp.vm
-    for i, n in enumerate(list(vm.trainable_vars)):
-        x = S.real("%s%d" % (prefix, i))
+    if cartesian:
+        vm.rp2xy_all()
+    for i, n in enumerate(coupling_names(vm)):
+        if n.endswith("i") and vm.complex_vars.get(n[:-1]) is True:
+            x = S.angle("%s%d" % (prefix, i), D=1)
+        else:
+            x = S.real("%s%d" % (prefix, i))
         vm.variables[n].assign(tensor_of(x))
         out[n] = x
+    return out
+
+
+def coupling_names(vm):
+    """free parameters plus the fixed reference couplings (so that no chain is evaluated in
+    rounded floating point while the others are exact)"""
+    names = list(vm.trainable_vars)
+    for n in vm.variables:
+        if n not in names and ("_total_" in n or "_g_ls_" in n):
+            names.append(n)
+    return names
+
+
+def model_params(amp, model, prefix="g_", cartesian=False):
+    """solver model -> {parameter name: float} in the naming of symbolize_couplings"""
+    import math
+
+    out = {}
+    vm = amp.vm
+    if cartesian:
+        out["__cartesian__"] = True
+    for i, n in enumerate(coupling_names(vm)):
+        key = "%s%d" % (prefix, i)
+        if n.endswith("i") and vm.complex_vars.get(n[:-1]) is True:
+            out[n] = 2 * math.atan(float(model.get("u_" + key, 0.3)))
+        else:
+            out[n] = float(model.get(key, 0.7))
     return out
